@@ -164,7 +164,13 @@ impl Parser {
                 return Err(new_err(ty_span, &input.user_data().get_source_file_name(), "`Self` is only a valid type for associated functions, and not normal functions. (Hint: if trying to accept a callback function, use a function type like `fn(int) -> bool`)".to_owned()));
             }
 
-            ident.link_force_no_inherit(input.user_data(), ty)?;
+            if add_to_scope_dependencies {
+                ident.link_force_no_inherit(input.user_data(), ty)?;
+            } else {
+                // a signature read ahead of the function's own scope (class pre-walk): its
+                // parameters must not become names of the surrounding scope.
+                ident.set_type_no_link(ty);
+            }
 
             result.push(ident);
         }
